@@ -37,6 +37,23 @@ fn main() {
             }
             0
         }
+        "repeat" => {
+            // args: <file with source> <dialect|-> <n>: number of distinct compile outcomes over n calls
+            let src = std::fs::read_to_string(&args[1]).expect("source");
+            let d = if args[2] == "-" { None } else { Some(args[2].as_str()) };
+            let n: usize = args[3].parse().expect("n");
+            let mut outs = std::collections::BTreeSet::new();
+            for _ in 0..n {
+                let o = match api::compile(&src, d) {
+                    api::Outcome::Ok(s) => format!("SQL:{s}"),
+                    api::Outcome::Err(e) => format!("ERR:{}", e.inner.iter().map(|m| format!("{}|{:?}", m.reason, m.hints)).collect::<Vec<_>>().join(";")),
+                    api::Outcome::Panic { msg, file, line } => format!("PANIC:{file}:{line}:{msg}"),
+                };
+                outs.insert(o);
+            }
+            println!("{}", serde_json::json!({"distinct": outs.len(), "outputs": outs.iter().take(4).collect::<Vec<_>>()}));
+            0
+        }
         "render" => {
             // stdin: one program per line -> PRQL text
             let dbset: serde_json::Value =
